@@ -98,6 +98,20 @@ def run():
     add('FLJ', allt, 4096)
     add('FLJ', b'{' + b','.join(b'"#' + l.encode() + b'":["v"]' for l in jsongen.LETTERS[:32]) + b'}', 4096)
     add('FLJ', b'{' + b','.join(b'"#' + l.encode() + b'":["v"]' for l in jsongen.LETTERS[:33]) + b'}', 4096)
+    # the fixed-capacity table of tag members: every fill level around its ends (all 52 letters, then repeats),
+    # in shuffled letter orders, with unknown members in between, into large and minimal buffers
+    for k in (31, 32, 33, 34, 50, 51, 52, 53, 54, 60, 104, 105):
+        for variant in range(3):
+            ls = list(jsongen.LETTERS)
+            rng.shuffle(ls)
+            seq = (ls * 3)[:k]
+            if variant == 1 and k > 52:
+                seq = ls[:52] + [rng.choice(ls) for _ in range(k - 52)]
+            mem = [b'"#' + l.encode() + b'":[' + rng.choice([b'', b'"v"', b'"a","b"']) + b']' for l in seq]
+            if variant == 2:
+                mem.insert(rng.randrange(len(mem) + 1), b'"#_":[1]')
+                mem.insert(rng.randrange(len(mem) + 1), b'"zz":{"#a":[]}')
+            add('FLJ', b'{' + b','.join(mem) + b'}', rng.choice([8192, 8192, 32, 40, 600]))
     # --- texts on which the skipping pass (bytes) and the decoding pass (lenient code points) disagree about where a
     # string ends: a UTF-8 lead byte right before a closing quote swallows the quote (and 1-2 more bytes)
     for lead in (b'\xc3', b'\xdf', b'\xe2', b'\xef', b'\xf0', b'\xf4'):
